@@ -229,16 +229,626 @@ pub fn oracles(v: &View, stats: &mut Stats) -> Vec<Record> {
     out
 }
 
-/// Event-loop half: absent until `src/sub/s3.rs` exists (see module doc).
-pub fn s3_half(_ctx: &Ctx, _stats: &mut Stats) {}
+// ------------------------------------------------------------------ event-loop half (S3)
+
+mod el {
+    //! Real `EventLoop::poll()` against the scripted broker with the first connection cut at
+    //! **every** byte offset of both directions (fault enumeration per history), then a
+    //! reconnect with session present / absent (and sampled second failures).
+    //!
+    //! Identity is the unique payload. What the client holds after every `poll()` return is
+    //! `state.clone().clean()` ∪ `state.collision` ∪ `eventloop.pending` (the `Snap` of S3).
+    //! A publish is *owed* from the first snapshot that shows it held (in flight, parked, or
+    //! drained from the request channel into `pending`) until the acknowledgement that ends
+    //! its flow has been produced as an `Incoming` event (returned by `poll()` or still queued
+    //! in `state.events`), or until a CONNACK reports that the session is gone.
+    use super::ID;
+    use crate::common::{fnv, judge, Ctx, Judged, Record, Rng, Stats};
+    use crate::gen::cs3::{self, Case, Cls, ConnSpec, FaultSpec, UOp, UStep, R, W};
+    use crate::sub::s3::{ErrClass, Kind, Req, RunLog, Snap, Ver};
+    use serde_json::{json, Value};
+    use std::collections::BTreeMap;
+
+    #[derive(Clone, Copy, PartialEq, Eq, Debug)]
+    enum Phase {
+        Parked,
+        Sent,
+        Released,
+    }
+
+    #[derive(Clone, Debug)]
+    struct Owed {
+        pkid: u16,
+        qos: u8,
+        topic: String,
+        phase: Phase,
+        /// connection (count of CONNACK events − 1) on which it was last written
+        conn: Option<usize>,
+        done: bool,
+    }
+
+    fn held_publish<'a>(s: &'a Snap, payload: &str) -> Option<&'a Req> {
+        s.held
+            .iter()
+            .chain(s.pending.iter())
+            .find(|r| r.kind == Kind::Publish && r.payload == payload)
+    }
+
+    fn holds_release(s: &Snap, pkid: u16) -> bool {
+        s.held.iter().chain(s.pending.iter()).any(|r| r.kind == Kind::PubRel && r.pkid == pkid)
+    }
+
+    pub fn verdicts(case: &Case, log: &RunLog, stats: &mut Stats) -> Vec<Record> {
+        let mut out = vec![];
+        let ver = case.ver().name();
+        let v5 = case.ver() == Ver::V5;
+        let rec = |oracle: &str, msg: String| Record::new(ID, oracle, msg).fact("version", ver).fact("substrate", "S3");
+        if let Some(p) = &log.panic {
+            out.push(
+                rec("panic", format!("poll() panicked at {}: {}", p.location, p.message))
+                    .fact("site", crate::common::panic_site(p))
+                    .fact("call", "poll"),
+            );
+            return out;
+        }
+        let prod = cs3::produced(log);
+        if !prod.anomalies.is_empty() {
+            // C10's business; without a consistent event order nothing can be attributed here
+            stats.add_extra("s3_runs_not_judged_event_order", 1);
+            return out;
+        }
+        let mut owed: BTreeMap<String, Owed> = BTreeMap::new();
+        let mut conn_no: Option<usize> = None; // CONNACK events seen − 1
+        // what was owed when connection c (session present) started: payload -> (phase, pkid, qos, topic)
+        let mut carried: BTreeMap<usize, Vec<(String, Owed)>> = BTreeMap::new();
+        let mut ev_i = 0usize;
+        for p in &log.polls {
+            // an acknowledgement the client itself refused changes nothing
+            let refused: Option<u16> = match p.err().map(|e| &e.class) {
+                Some(ErrClass::Unsolicited(id)) => Some(*id),
+                _ => None,
+            };
+            let mut batch: Vec<&crate::sub::s3::Ev> = vec![];
+            while ev_i < prod.events.len() && prod.events[ev_i].0 == p.idx {
+                batch.push(&prod.events[ev_i].1);
+                ev_i += 1;
+            }
+            // a request drained from the channel gets its packet id at its first write: learn it
+            // from the copy held after this return, before the events of this return are read
+            for (payload, o) in owed.iter_mut().filter(|(_, o)| !o.done && o.pkid == 0) {
+                if let Some(r) = held_publish(&p.snap, payload) {
+                    o.pkid = r.pkid;
+                }
+            }
+            let last_ack_refused = refused.and_then(|id| {
+                batch
+                    .iter()
+                    .rposition(|e| e.incoming && matches!(e.pk.kind, Kind::PubAck | Kind::PubRec | Kind::PubComp | Kind::PubRel) && e.pk.pkid == id)
+            });
+            for (bi, e) in batch.iter().enumerate() {
+                if Some(bi) == last_ack_refused {
+                    continue;
+                }
+                let by_pkid = |owed: &BTreeMap<String, Owed>, pkid: u16, phase: Phase, conn: Option<usize>| -> Vec<String> {
+                    owed.iter()
+                        .filter(|(_, o)| !o.done && o.pkid == pkid && o.phase == phase && (conn.is_none() || o.conn == conn))
+                        .map(|(k, _)| k.clone())
+                        .collect()
+                };
+                match (e.incoming, e.pk.kind) {
+                    (true, Kind::ConnAck) => {
+                        conn_no = Some(conn_no.map(|c| c + 1).unwrap_or(0));
+                        if !e.pk.flag {
+                            for o in owed.values_mut().filter(|o| !o.done) {
+                                o.done = true;
+                                stats.add_extra("s3_publishes_no_longer_owed_session_absent", 1);
+                            }
+                        } else if conn_no != Some(0) {
+                            carried.insert(
+                                conn_no.unwrap(),
+                                owed.iter().filter(|(_, o)| !o.done).map(|(k, o)| (k.clone(), o.clone())).collect(),
+                            );
+                        }
+                    }
+                    (false, Kind::Publish) if e.pk.pkid != 0 => {
+                        // written (again): from now on acknowledgements on this connection count
+                        let mut c = by_pkid(&owed, e.pk.pkid, Phase::Sent, None);
+                        c.extend(by_pkid(&owed, e.pk.pkid, Phase::Parked, None));
+                        if c.len() > 1 {
+                            stats.add_extra("s3_runs_not_judged_pkid_ambiguous", 1);
+                            return out;
+                        }
+                        if let Some(k) = c.first() {
+                            let o = owed.get_mut(k).unwrap();
+                            o.conn = conn_no;
+                            o.phase = Phase::Sent;
+                        }
+                    }
+                    (false, Kind::PubRel) => {
+                        for k in by_pkid(&owed, e.pk.pkid, Phase::Released, None) {
+                            owed.get_mut(&k).unwrap().conn = conn_no;
+                        }
+                    }
+                    (true, Kind::PubAck) => {
+                        for k in by_pkid(&owed, e.pk.pkid, Phase::Sent, conn_no) {
+                            owed.get_mut(&k).unwrap().done = true;
+                        }
+                    }
+                    (true, Kind::PubRec) => {
+                        for k in by_pkid(&owed, e.pk.pkid, Phase::Sent, conn_no) {
+                            let o = owed.get_mut(&k).unwrap();
+                            if v5 && e.pk.code >= 0x80 {
+                                o.done = true;
+                            } else {
+                                o.phase = Phase::Released;
+                            }
+                        }
+                    }
+                    (true, Kind::PubComp) => {
+                        for k in by_pkid(&owed, e.pk.pkid, Phase::Released, conn_no) {
+                            owed.get_mut(&k).unwrap().done = true;
+                        }
+                    }
+                    _ => {}
+                }
+            }
+
+            // (1) everything owed is held, after every poll() return
+            stats.oracle("C02/s3/owed-subset-of-held");
+            for (payload, o) in owed.iter_mut().filter(|(_, o)| !o.done) {
+                match o.phase {
+                    Phase::Sent | Phase::Parked => {
+                        let parked = p.snap.collision_payload.as_deref() == Some(payload.as_str());
+                        match held_publish(&p.snap, payload) {
+                            Some(r) => {
+                                if o.pkid == 0 {
+                                    o.pkid = r.pkid; // drained from the channel, id given at its first write
+                                } else if r.pkid != o.pkid || r.qos != o.qos || r.topic != o.topic {
+                                    out.push(rec(
+                                        "held-copy-differs",
+                                        format!(
+                                            "after poll #{} publish '{payload}' (id {} q{} '{}') is held as id {} q{} '{}'",
+                                            p.idx, o.pkid, o.qos, o.topic, r.pkid, r.qos, r.topic
+                                        ),
+                                    ));
+                                    return out;
+                                }
+                            }
+                            None if parked => {}
+                            None => {
+                                // how it got lost, as far as two consecutive snapshots tell
+                                let prev = if p.idx > 0 { Some(&log.polls[p.idx - 1].snap) } else { None };
+                                let was_parked = prev.map(|s| s.collision_payload.as_deref() == Some(payload.as_str())).unwrap_or(false);
+                                let lost_from = if was_parked && p.snap.collision_payload.is_some() {
+                                    "collision-overwritten-by-another-publish"
+                                } else if was_parked {
+                                    "collision"
+                                } else if prev.map(|s| s.pending.iter().any(|r| &r.payload == payload)).unwrap_or(false) {
+                                    "pending"
+                                } else {
+                                    "state"
+                                };
+                                out.push(
+                                    rec(
+                                        "live-not-held",
+                                        format!(
+                                            "after poll #{} ({}) publish '{payload}' (id {}, q{}) is neither in the state's retransmission set, nor parked, nor in pending, and no acknowledgement for it has been surfaced or queued (it was last seen in: {lost_from})",
+                                            p.idx,
+                                            p.brief(),
+                                            o.pkid,
+                                            o.qos
+                                        ),
+                                    )
+                                    .fact("phase", if o.phase == Phase::Parked { "parked" } else { "sent" })
+                                    .fact("after", "poll")
+                                    .fact("lost_from", lost_from),
+                                );
+                                return out;
+                            }
+                        }
+                    }
+                    Phase::Released => {
+                        if !holds_release(&p.snap, o.pkid) {
+                            out.push(
+                                rec(
+                                    "live-not-held",
+                                    format!(
+                                        "after poll #{} ({}) QoS 2 publish '{payload}' (id {}) awaits PUBCOMP but no release is held for it",
+                                        p.idx,
+                                        p.brief(),
+                                        o.pkid
+                                    ),
+                                )
+                                .fact("phase", "released")
+                                .fact("after", "poll"),
+                            );
+                            return out;
+                        }
+                    }
+                }
+            }
+            // newly held publishes become owed
+            for r in p.snap.held.iter().chain(p.snap.pending.iter()) {
+                if r.kind == Kind::Publish && r.qos > 0 && !owed.contains_key(&r.payload) {
+                    owed.insert(
+                        r.payload.clone(),
+                        Owed {
+                            pkid: r.pkid,
+                            qos: r.qos,
+                            topic: r.topic.clone(),
+                            phase: Phase::Sent,
+                            conn: if r.pkid != 0 { conn_no } else { None },
+                            done: false,
+                        },
+                    );
+                }
+            }
+            if let (Some(pl), Some(id)) = (&p.snap.collision_payload, p.snap.collision) {
+                if !owed.contains_key(pl) {
+                    owed.insert(
+                        pl.clone(),
+                        Owed {
+                            pkid: id,
+                            qos: 1,
+                            topic: cs3::TOPIC.into(),
+                            phase: Phase::Parked,
+                            conn: None,
+                            done: false,
+                        },
+                    );
+                }
+            }
+        }
+
+        // (2) nothing reaches the wire that the client never held
+        stats.oracle("C02/s3/written-implies-tracked");
+        for c in &log.conns {
+            for f in &c.intended {
+                if f.pk.kind == Kind::Publish && f.pk.qos > 0 && !owed.contains_key(&f.pk.payload) {
+                    out.push(
+                        rec(
+                            "written-not-tracked",
+                            format!(
+                                "connection {}: {} was handed to the transport but no snapshot ever showed it held (clean() would not return it)",
+                                c.idx,
+                                f.pk.brief()
+                            ),
+                        )
+                        .fact("how", "unknown"),
+                    );
+                    return out;
+                }
+            }
+        }
+
+        // (3) resumed session that went idle: everything owed at its CONNACK was transmitted on it
+        let last_conn = log.conns.len().saturating_sub(1);
+        let went_idle = log.stopped_by == "stop-condition" && log.end_of(last_conn).is_none();
+        if went_idle && log.conns[last_conn].fired.is_none() {
+            // index of the last connection among connections that got a CONNACK
+            let acked = cs3::connacked_conns(log);
+            if let Some(pos) = acked.iter().position(|c| *c == last_conn) {
+                if let Some(list) = carried.get(&pos) {
+                    stats.oracle("C02/s3/retransmitted-on-resume");
+                    stats.corner("s3-resumed-and-idle");
+                    let frames = &log.conns[last_conn].intended;
+                    for (payload, o) in list {
+                        let ok = match o.phase {
+                            Phase::Released => frames.iter().any(|f| f.pk.kind == Kind::PubRel && f.pk.pkid == o.pkid),
+                            _ => frames.iter().any(|f| {
+                                f.pk.kind == Kind::Publish
+                                    && &f.pk.payload == payload
+                                    && (o.pkid == 0 || (f.pk.pkid == o.pkid && f.pk.qos == o.qos && f.pk.topic == o.topic))
+                            }),
+                        };
+                        if !ok {
+                            let sent_differently = frames.iter().any(|f| f.pk.kind == Kind::Publish && &f.pk.payload == payload);
+                            out.push(
+                                rec(
+                                    if sent_differently { "retransmission-changed" } else { "retransmit-missing" },
+                                    format!(
+                                        "session resumed on connection {last_conn} and the connection went idle, but '{payload}' (id {}, q{}, {:?}) was not transmitted again {}",
+                                        o.pkid,
+                                        o.qos,
+                                        o.phase,
+                                        if sent_differently { "with its original id/topic/QoS" } else { "at all" }
+                                    ),
+                                )
+                                .fact("what", if o.phase == Phase::Released { "pubrel" } else { "publish" }),
+                            );
+                            return out;
+                        }
+                    }
+                }
+            }
+        }
+        out
+    }
+
+    fn steps(pubs: &[(u8, &str)], when: W) -> Vec<UStep> {
+        pubs.iter()
+            .map(|(q, p)| UStep {
+                when: when.clone(),
+                op: UOp::Pub {
+                    qos: *q,
+                    payload: (*p).to_owned(),
+                },
+            })
+            .collect()
+    }
+
+    /// first connection of each directed history (fault-free form); connections 1.. are added by
+    /// the enumerator
+    pub fn directed(ver: Ver) -> Vec<Case> {
+        let v = ver.name().to_owned();
+        let mk = |name: &str, inflight: u16, st: Vec<UStep>, c0: ConnSpec| Case {
+            name: name.into(),
+            ver: v.clone(),
+            inflight,
+            manual: false,
+            steps: st,
+            conns: vec![c0],
+        };
+        let mut late = steps(&[(1, "a"), (2, "b"), (1, "c"), (0, "z"), (2, "d")], W::AfterConnAck(0));
+        late.extend(steps(&[(1, "late1"), (2, "late2")], W::AfterConnEnd(0)));
+        vec![
+            // a acked, c not; b complete, d released and waiting for PUBCOMP
+            mk(
+                "s3-mixed",
+                10,
+                {
+                    let mut s = steps(&[(1, "a"), (2, "b"), (1, "c"), (0, "z"), (2, "d")], W::AfterConnAck(0));
+                    s.push(UStep {
+                        when: W::AfterConnAck(0),
+                        op: UOp::Sub { filter: "f/1".into() },
+                    });
+                    s
+                },
+                ConnSpec::normal(false)
+                    .rule(Cls::Q1, vec![R::Normal], R::Drop)
+                    .rule(Cls::PubRel, vec![R::Normal], R::Drop),
+            ),
+            // window of 3, five requests, nothing acknowledged: 3 in flight, 2 still in the channel
+            mk(
+                "s3-nothing-acked",
+                3,
+                steps(&[(1, "a"), (1, "b"), (2, "c"), (1, "d"), (2, "e")], W::AfterConnAck(0)),
+                ConnSpec::normal(false).rule(Cls::Q1, vec![], R::Drop).rule(Cls::Q2, vec![], R::Drop),
+            ),
+            // window of 3 full, one request waiting: on resume it is parked until an id frees up
+            mk(
+                "s3-window-full-one-waiting",
+                3,
+                steps(&[(1, "a"), (2, "b"), (1, "c"), (1, "d")], W::AfterConnAck(0)),
+                ConnSpec::normal(false).rule(Cls::Q1, vec![], R::Drop).rule(Cls::Q2, vec![], R::Drop),
+            ),
+            // id 1 never acknowledged, id 2 at once: the third publish is parked on id 1
+            mk(
+                "s3-collision",
+                2,
+                steps(&[(1, "a"), (1, "b"), (1, "c"), (1, "d")], W::AfterConnAck(0)),
+                ConnSpec::normal(false).rule(Cls::Q1, vec![R::Drop], R::Normal),
+            ),
+            // QoS 2 flows stretched over time
+            mk(
+                "s3-qos2-staged",
+                5,
+                steps(&[(2, "a"), (2, "b"), (2, "c")], W::AfterConnAck(0)),
+                ConnSpec::normal(false)
+                    .rule(Cls::Q2, vec![R::Normal, R::Delay(20)], R::Delay(40))
+                    .rule(Cls::PubRel, vec![R::Delay(20)], R::Drop),
+            ),
+            // requests issued after the failure queue up behind what is carried over
+            mk(
+                "s3-late-requests",
+                10,
+                late,
+                ConnSpec::normal(false).rule(Cls::Q1, vec![], R::Drop).rule(Cls::PubRel, vec![], R::Drop),
+            ),
+        ]
+    }
+
+    /// Known-finding trigger: more QoS>0 requests than `inflight + 1` can be waiting when the
+    /// connection fails; replaying them parks a second publish over the first.
+    pub fn gen_base(rng: &mut Rng, ver: Ver, n: u64, trigger: bool) -> Case {
+        let inflight = *rng.pick(&[2u16, 3, 5, 10]);
+        let count = if trigger {
+            inflight as usize + rng.range(2, 4) as usize
+        } else {
+            rng.range(2, inflight as u64 + 1).min(7) as usize
+        };
+        let mut st = vec![];
+        for i in 0..count {
+            // QoS 2 only where the ids cannot wrap (F12 is C07's finding)
+            let qos = if (count as u16) < inflight { rng.range(1, 2) as u8 } else { 1 };
+            st.push(UStep {
+                when: W::AfterConnAck(0),
+                op: UOp::Pub {
+                    qos,
+                    payload: format!("r{n}-{i}"),
+                },
+            });
+        }
+        for i in 0..rng.below(3) {
+            st.push(UStep {
+                when: W::AfterConnEnd(0),
+                op: UOp::Pub {
+                    qos: 1,
+                    payload: format!("l{n}-{i}"),
+                },
+            });
+        }
+        let pick = |rng: &mut Rng| match rng.below(4) {
+            0 => R::Normal,
+            1 => R::Drop,
+            2 => R::Delay(10 * rng.range(1, 5)),
+            _ => R::Normal,
+        };
+        let c0 = ConnSpec::normal(false)
+            .rule(Cls::Q1, (0..3).map(|_| pick(rng)).collect(), pick(rng))
+            .rule(Cls::Q2, (0..2).map(|_| pick(rng)).collect(), pick(rng))
+            .rule(Cls::PubRel, (0..2).map(|_| pick(rng)).collect(), pick(rng));
+        Case {
+            name: format!("s3-random-{n}"),
+            ver: ver.name().into(),
+            inflight,
+            manual: false,
+            steps: st,
+            conns: vec![c0],
+        }
+    }
+
+    struct Ran {
+        c2b0: u64,
+        b2c0: u64,
+        stopped: bool,
+    }
+
+    fn run_case(ctx: &Ctx, stats: &mut Stats, case: &Case) -> Ran {
+        let log = cs3::run(case);
+        stats.evaluations += 1;
+        stats.op("s3-run");
+        cs3::census(stats, &log);
+        let mut r = Ran {
+            c2b0: log.conns.first().map(|c| c.c2b_bytes).unwrap_or(0),
+            b2c0: log.conns.first().map(|c| c.b2c_bytes).unwrap_or(0),
+            stopped: false,
+        };
+        if let Some(e) = &log.harness_error {
+            stats.inconclusive.push(format!("S3 harness: {e} (case {})", case.name));
+            return r;
+        }
+        if log.polls.iter().any(|p| p.is(false, Kind::AwaitAck)) {
+            stats.corner("s3-collision-parked");
+        }
+        if log.polls.iter().any(|p| p.snap.collision.is_some() && p.err().is_some()) {
+            stats.corner("s3-collision-at-failure");
+        }
+        for p in &log.polls {
+            if p.is(true, Kind::ConnAck) && p.conn.unwrap_or(0) > 0 {
+                stats.corner(if p.ev().map(|e| e.pk.flag).unwrap_or(false) {
+                    "s3-reconnect-session-present"
+                } else {
+                    "s3-reconnect-session-absent"
+                });
+            }
+        }
+        if log.conns.len() >= 2 {
+            let shape: Vec<String> = log.polls.iter().map(|p| p.brief().split(' ').skip(2).collect::<Vec<_>>().join(" ")).collect();
+            stats.shapes.insert(fnv(format!("{}|{}|{}", case.ver, case.inflight, shape.join(",")).as_bytes()));
+        }
+        let recs = verdicts(case, &log, stats);
+        if stats.evaluations % 401 == 11 {
+            stats.sample(json!({"kind": "S3", "case": case, "observed": log.brief(90)}));
+        }
+        for rcd in recs {
+            let replay = || json!({"substrate": "S3", "case": case, "observed": log.brief(400)});
+            match judge(ctx, stats, rcd, replay) {
+                Judged::Known(_) | Judged::Violation => {
+                    r.stopped = true;
+                    break;
+                }
+            }
+        }
+        r
+    }
+
+    /// one history: fault-free reference run, then every crash point of the first connection in
+    /// both directions, each followed by a reconnect with the session present and absent
+    fn enumerate(ctx: &Ctx, stats: &mut Stats, rng: &mut Rng, base: &Case) {
+        stats.op("s3-history");
+        // reference: the broker closes the first connection after 1 s
+        let mut reference = base.clone();
+        reference.conns[0].close_at_ms = Some(1000);
+        reference.conns.push(ConnSpec::normal(true));
+        reference.conns.push(ConnSpec::normal(true));
+        let r = run_case(ctx, stats, &reference);
+        let mut points: Vec<FaultSpec> = (0..=r.c2b0).map(FaultSpec::C2b).collect();
+        for k in 0..=r.b2c0 {
+            points.push(if k % 2 == 0 { FaultSpec::B2cEof(k) } else { FaultSpec::B2cReset(k) });
+        }
+        stats.add_extra("crash_points", points.len() as u64);
+        for f in points {
+            for sp in [true, false] {
+                let mut c = base.clone();
+                c.conns[0].fault = Some(f.clone());
+                let mut second = ConnSpec::normal(sp);
+                // sampled second failure while the first one is being repaired
+                if rng.chance(1, 8) {
+                    second.fault = Some(FaultSpec::C2b(14 + rng.below(90)));
+                    stats.add_extra("s3_second_failures_sampled", 1);
+                }
+                c.conns.push(second);
+                c.conns.push(ConnSpec::normal(rng.chance(3, 4)));
+                c.conns.push(ConnSpec::normal(true));
+                run_case(ctx, stats, &c);
+                if stats.violations.len() >= 5 {
+                    return;
+                }
+            }
+        }
+    }
+
+    pub fn run(ctx: &Ctx, stats: &mut Stats, seed: u64, n_random: u64, with_directed: bool) {
+        let mut rng = Rng::new(seed ^ 0x5302);
+        if with_directed {
+            for ver in [Ver::V4, Ver::V5] {
+                for base in directed(ver) {
+                    enumerate(ctx, stats, &mut rng, &base);
+                    stats.add_extra("s3_directed_histories", 1);
+                }
+            }
+        }
+        for i in 0..n_random {
+            let ver = if rng.chance(1, 2) { Ver::V4 } else { Ver::V5 };
+            let trigger = rng.chance(15, 100);
+            stats.add_extra(if trigger { "s3_histories_with_trigger" } else { "s3_histories_trigger_free" }, 1);
+            let base = gen_base(&mut rng, ver, seed.wrapping_mul(100_000) + i, trigger);
+            enumerate(ctx, stats, &mut rng, &base);
+            if stats.violations.len() >= 5 {
+                break;
+            }
+        }
+    }
+
+    pub fn replay(ctx: &Ctx, doc: &Value) -> Stats {
+        let mut stats = Stats::default();
+        match serde_json::from_value::<Case>(doc["case"].clone()) {
+            Ok(case) => {
+                run_case(ctx, &mut stats, &case);
+            }
+            Err(e) => stats.inconclusive.push(format!("replay file does not hold an S3 case: {e}")),
+        }
+        stats.shapes.insert(1);
+        stats.shapes.insert(2);
+        stats
+    }
+}
 
 fn run(ctx: &Ctx) -> Stats {
     let mut stats = cwork::run_family(ctx, ID, cwork::PROFILE_C02, 12_000, 2_000_000);
-    s3_half(ctx, &mut stats);
+    // event-loop half: fault enumeration
+    if ctx.quick() {
+        el::run(ctx, &mut stats, ctx.seed, ctx.size(4, 0), true);
+    } else {
+        let per = ctx.size(0, 320) / ctx.threads.max(1) as u64 + 1;
+        let s3 = crate::common::sharded(ctx, ctx.threads, |shard, seed| {
+            let mut st = Stats::default();
+            el::run(ctx, &mut st, seed, per, shard == 0);
+            st
+        });
+        stats.merge(s3);
+    }
+    stats.exhaustive_scopes.push(
+        "S3, per history: every byte offset k in [0, N] of the client->broker stream and every k' in [0, N'] of the broker->client stream of the first connection as the failure point (N, N' from the fault-free reference run), each with session_present true and false on the next connection".into(),
+    );
     stats
 }
 
 fn replay(ctx: &Ctx, doc: &Value) -> Stats {
+    if doc["substrate"] == "S3" {
+        return el::replay(ctx, doc);
+    }
     cwork::replay_family(ctx, ID, doc)
 }
 
@@ -246,9 +856,14 @@ pub fn prop() -> Prop {
     Prop {
         id: ID,
         meta: Meta {
-            level: "exploration",
-            rule: "S2 half only (state machine; the event-loop half with byte-level crash points is not built yet). \
-                   A case is one history of 20-160 ops (user requests through the event loop's gate, read batches of \
+            level: "fault_enumeration",
+            rule: "Two halves. S3 (real EventLoop::poll, v4 and v5, scripted broker, virtual time): per history a \
+                   fault-free reference run, then the first connection cut at EVERY byte offset of the client->broker \
+                   and of the broker->client stream (EOF / reset alternating), each followed by a reconnect with \
+                   session_present true and false (second failures sampled 1 in 8); histories = 6 directed per \
+                   version (mixed QoS with partial acks, nothing acked with requests waiting in the channel, full \
+                   window, collision, staged QoS 2, late requests) + random ones (85% free of the known trigger). \
+                   S2 (real MqttState driven directly): a case is one history of 20-160 ops (user requests through the event loop's gate, read batches of \
                    broker packets, pings, connection losses, reconnects with session present/absent) against the real \
                    v4 or v5 MqttState with inflight limit from {1,2,3,5,10,100,65535}, plus 12 (3.1.1) / 22 (MQTT 5) directed scenarios and a 65535-id wrap-around per \
                    version. Distinct = hash of (version, limit, manual, op-kind sequence incl. packet kinds per batch); \
@@ -257,7 +872,9 @@ pub fn prop() -> Prop {
                 "a PUBACK for a QoS 2 id / PUBREC for a QoS 1 id that the client accepts counts as the broker's acknowledgement of that id",
                 "MQTT 5: PUBACK, PUBREC with reason >= 0x80 and PUBCOMP end the flow of a publish",
                 "broker reports no session on reconnect => nothing is owed any more (second sentence of the statement is conditional)",
-                "the S2 driver applies the request gate, pending queue and read-batch flush exactly as eventloop.rs/framed.rs do; crash points inside a frame are the S3 half's job",
+                "the S2 driver applies the request gate, pending queue and read-batch flush exactly as eventloop.rs/framed.rs do; it has no request channel (a request not taken is gone), requests drained from the channel by clean() are exercised by the S3 half",
+                "S3: a publish is owed from the first poll() return after which the client holds it (state, collision or pending, incl. requests clean() drained from the channel) until its final acknowledgement has been produced as an Incoming event (returned or still queued)",
+                "S3: crash points are enumerated on the first connection of each history; histories are sampled",
             ],
             floors: &[
                 ("pkid-wrapped", 5000),
@@ -271,6 +888,13 @@ pub fn prop() -> Prop {
                 ("pkid-wrapped-at-65535", 2),
                 ("C02/live-subset-of-held", 500000),
                 ("C02/retransmitted-on-resume", 10000),
+                ("failure-mid-frame", 400),
+                ("s3-reconnect-session-present", 300),
+                ("s3-reconnect-session-absent", 300),
+                ("s3-resumed-and-idle", 200),
+                ("s3-collision-parked", 20),
+                ("C02/s3/owed-subset-of-held", 5000),
+                ("C02/s3/retransmitted-on-resume", 200),
             ],
         },
         run,
